@@ -33,7 +33,12 @@ pub fn run_diff_tapes(r: &mut Report, cfg: &DiffCfg, nontrivial: &dyn Fn(&RefObs
     let profile = cfg.profile.clone();
     let fail = run_tapes(cfg.seed, cfg.cases, cfg.max_len, |tape, shrinking| {
         let (prog, fault) = gen_program(tape, &profile);
+        let started = std::time::Instant::now();
         let out = diff_program(&prog);
+        if started.elapsed().as_secs_f64() > 1.5 && std::env::var("NLV_SLOW").is_ok() {
+            // diagnostics only: never part of a verdict
+            eprintln!("SLOW {:.1}s {}", started.elapsed().as_secs_f64(), out.src);
+        }
         if !shrinking {
             r.eval();
             if let Some(f) = fault {
